@@ -49,3 +49,10 @@ Theorem c06_or3_is_or :
 Proof. exact Props.c06_or3_is_or. Qed.
 Print Assumptions c06_or3_is_or.
 
+
+Theorem c03_de_morgan_or :
+  forall (re : string -> string -> option bool) (cfg : config) (ls : locals) (a b : expr) (d : iface),
+  eval re cfg ls (ENot (EBin BOr a b)) d = eval re cfg ls (EBin BAnd (ENot a) (ENot b)) d.
+Proof. exact Props.c03_de_morgan_or. Qed.
+Print Assumptions c03_de_morgan_or.
+
